@@ -24,7 +24,7 @@ Mirrors (tree at /repo HEAD):
      Broker.__setitem__ (raises when the key exists)  `Broker.set`
      run (pruning under SerializedArchiveContext) 1121-1129  `prune`
 
-Parameters / not modelled: json (a document is its parsed form; a file that does not parse is
+Parameters / not modelled: json's grammar (a document is its parsed form; only the string codec is modelled: `jsonEscape`; a file that does not parse is
 `RawEntry.notJson`), the UTF-8 codec (a `Char` is a Unicode scalar value; text that is not valid
 Unicode is outside the model), the file system (`FS` = association list from path STRINGS to file
 texts: the same string names the same file; two different strings are taken to name different files
@@ -308,6 +308,34 @@ def writeText (host : Bool) (p : Provider) : Except Fault Str :=
       -- `len(content) == 0` of the string; `isinstance(content, six.string_types)`: written as it is
       (if host && (ls.headD []).isEmpty then .error 0 else .ok (ls.headD []))
     else if host && ls.isEmpty then .error 0 else .ok (joinLines ls)
+
+/-! ## The document codec: text of a metadata document as JSON with ASCII escapes -/
+
+/-- A Python `str` is a list of CODE POINTS 0 … 0x10FFFF, lone surrogates (0xD800–0xDFFF) included —
+    `os.fsdecode` maps an undecodable file-name byte b to 0xDC00 + b.  (`Char` has no surrogates, so the
+    codec is modelled on numbers.) -/
+abbrev CodePoints := List Nat
+
+def isHigh (u : Nat) : Bool := 0xD800 ≤ u && u < 0xDC00
+def isLow (u : Nat) : Bool := 0xDC00 ≤ u && u < 0xE000
+
+/-- `json.dump(doc, f)` with the default `ensure_ascii=True`: every code point becomes 16-bit units — itself
+    below 0x10000 (a lone surrogate too), a surrogate pair above.  How a unit is SPELLED in the file (a
+    printable ASCII character, a two-character escape, `\uXXXX` in hexadecimal) is not modelled. -/
+def jsonEscape : CodePoints → List Nat
+  | [] => []
+  | c :: t =>
+    if c < 0x10000 then c :: jsonEscape t
+    else (0xD800 + (c - 0x10000) / 1024) :: (0xDC00 + (c - 0x10000) % 1024) :: jsonEscape t
+
+/-- `json.load`: a high-surrogate unit directly followed by a low-surrogate unit is ONE code point,
+    every other unit is a code point by itself (a lone surrogate stays what it is) -/
+def jsonUnescape : List Nat → CodePoints
+  | [] => []
+  | [u] => [u]
+  | u :: v :: t =>
+    if isHigh u && isLow v then (0x10000 + (u - 0xD800) * 1024 + (v - 0xDC00)) :: jsonUnescape t
+    else u :: jsonUnescape (v :: t)
 
 /-! ## Value types: which serializer the writer finds, which deserializer the reader finds -/
 
